@@ -130,6 +130,39 @@ type C07Case struct {
 	NameInput int `json:"nameInput"` // token of the input named like the parameter
 	FirstConv int `json:"firstConv"` // id of the first (type-only) converter of the chain
 	NamedConv int `json:"namedConv"` // shape 2: id of the converter taking the name explicitly
+	// shape 3: several named parameters, all converted through the same
+	// type-only chain; ParamInput maps a parameter name to the token of the
+	// input carrying that name.
+	ParamInput map[string]int `json:"paramInput,omitempty"`
+}
+
+// traceToInput follows a value back through single-input converter
+// executions to the caller-supplied token it was converted from.
+func traceToInput(w *engine.World, evs []engine.Event, tok int) (int, bool) {
+	for hops := 0; hops < 16; hops++ {
+		org, ok := w.Origin(tok)
+		if !ok {
+			return 0, false
+		}
+		if org.Input {
+			return tok, true
+		}
+		found := false
+		for _, ev := range evs {
+			if ev.Func == org.Func && ev.Exec == org.Exec {
+				if len(ev.Args) != 1 {
+					return 0, false
+				}
+				tok = ev.Args[0].Tok
+				found = true
+				break
+			}
+		}
+		if !found {
+			return 0, false
+		}
+	}
+	return 0, false
 }
 
 func evalC07(c *engine.Case) engine.Verdict {
@@ -147,12 +180,12 @@ func evalC07(c *engine.Case) engine.Verdict {
 	if reps <= 0 {
 		reps = 1
 	}
-	outs, _, err := runReps(sc, reps)
+	outs, ws, err := runReps(sc, reps)
 	if err != nil {
 		v.Failf("setup: %v", err)
 		return v
 	}
-	for _, o := range outs {
+	for oi, o := range outs {
 		if o.Panic != "" {
 			v.Failf("Call panicked: %s", o.Panic)
 			break
@@ -162,6 +195,25 @@ func evalC07(c *engine.Case) engine.Verdict {
 			break
 		}
 		switch x.Shape {
+		case 3:
+			for _, ev := range o.Events {
+				if ev.Func != engine.TargetID {
+					continue
+				}
+				for _, a := range ev.Args {
+					want, converted := x.ParamInput[a.L.Name]
+					if !converted {
+						continue
+					}
+					src, ok := traceToInput(ws[oi], o.Events, a.Tok)
+					if !ok {
+						v.Failf("parameter %s: cannot trace #%d back to a supplied value", a.L, a.Tok)
+					} else if src != want {
+						org, _ := ws[oi].Origin(src)
+						v.Failf("parameter %s was converted from #%d (supplied as %s); the supplied value with the parameter's name is #%d", a.L, src, org.L, want)
+					}
+				}
+			}
 		case 1:
 			found := false
 			for _, ev := range o.Events {
@@ -221,7 +273,7 @@ func genC07(g engine.G) *engine.Case {
 	}
 	t0, t1 := chain[0], chain[k]
 	sc := &engine.Scenario{}
-	x := C07Case{Shape: g.Int(1, 2)}
+	x := C07Case{Shape: g.Int(1, 3)}
 	tok := 0
 	add := func(l engine.Label) int {
 		tok++
@@ -230,9 +282,21 @@ func genC07(g engine.G) *engine.Case {
 		return tok
 	}
 	x.NameInput = add(engine.Label{Name: n, Type: t0})
+	var extraParams []string
+	if x.Shape == 3 {
+		// 1-2 further named parameters of the same target type, each with a
+		// same-named input of the source type
+		x.ParamInput = map[string]int{n: x.NameInput}
+		for _, o := range rapidPerm(g, names) {
+			if o != n && len(extraParams) < g.Int(1, 2) {
+				extraParams = append(extraParams, o)
+				x.ParamInput[o] = add(engine.Label{Name: o, Type: t0})
+			}
+		}
+	}
 	for i, m := 0, g.Int(1, 3); i < m; i++ {
 		o := engine.Pick(g, names)
-		if o != n {
+		if _, taken := x.ParamInput[o]; o != n && !taken {
 			add(engine.Label{Name: o, Type: t0})
 		}
 	}
@@ -268,6 +332,10 @@ func genC07(g engine.G) *engine.Case {
 	}
 	sc.Convs = rapidPerm(g, convs)
 	sc.Target = engine.FuncSpec{ID: engine.TargetID, In: []engine.Label{{Name: n, Type: t1, Dyn: t1}}, InForm: engine.Pick(g, []string{engine.FormStruct, engine.FormPtr}), OutForm: engine.FormPos}
+	for _, o := range extraParams {
+		sc.Target.In = append(sc.Target.In, engine.Label{Name: o, Type: t1, Dyn: t1})
+	}
+	sc.Target.In = rapidPerm(g, sc.Target.In)
 	c := &engine.Case{Sc: sc, Reps: 5}
 	c.SetX(&x)
 	return c
